@@ -171,7 +171,7 @@ def tree_tensors(o, path=()):
         yield from tree_tensors(vars(o), path)
 
 
-def check(cfg, backend, mode, hist, resume_at=None):
+def check(cfg, backend, mode, hist, resume_at=None, flip_at=None):
     """resume_at = k: before step k both optimizers are replaced by freshly constructed ones (compiled resp. eager) that
     load the checkpoint saved from the eager run - a resumed job must keep computing the same updates."""
     import torch
@@ -187,6 +187,12 @@ def check(cfg, backend, mode, hist, resume_at=None):
     u = common.UNIT[cfg["pdtype"]]
     msgs, digests = [], []
     for t, mask in enumerate(hist):
+        if flip_at is not None and t == flip_at:
+            # boolean options edited in param_groups between two steps (both optimizers): the next step uses the new values
+            for o in (opt, twin):
+                for g in o.param_groups:
+                    g["use_nesterov"] = not g["use_nesterov"]
+                    g["use_decoupled_weight_decay"] = not g["use_decoupled_weight_decay"]
         if resume_at is not None and t == resume_at:
             from . import c09
 
@@ -246,13 +252,16 @@ def check(cfg, backend, mode, hist, resume_at=None):
 
 def run_unit(unit):
     res = {"evals": 0, "transitions": 0, "states": set(), "outcomes": set(), "nontrivial_count": 0, "violations": [], "samples": [], "stats": {"compiled_graphs": 0, "min_graphs_per_run": 10 ** 6}}
-    runs = [(h, None) for h in HISTS]
+    runs = [(h, None, None) for h in HISTS]
     if unit.get("masks2"):  # two parameters: project the three-parameter masks
-        runs = [([[m[0], m[1]] for m in h], None) for h in HISTS]
+        runs = [([[m[0], m[1]] for m in h], None, None) for h in HISTS]
     elif not unit.get("expect_raise"):
-        runs.append((H3, 4))  # checkpoint after 4 steps (past the first refresh), resume into fresh optimizers
-    for hi, (hist, resume_at) in enumerate(runs):
-        msgs, digests, graphs = check(unit["cfg"], unit["backend"], unit["mode"], hist, resume_at)
+        runs.append((H3, 4, None))  # checkpoint after 4 steps (past the first refresh), resume into fresh optimizers
+        if unit["cfg"]["momentum"] != 0.0 and unit["cfg"]["wd"] != 0.0 and not unit["cfg"].get("groups"):
+            runs.append((H1[:7], None, 3))  # use_nesterov / use_decoupled_weight_decay flipped in param_groups before step 3
+    for hi, (hist, resume_at, flip_at) in enumerate(runs):
+        msgs, digests, graphs = check(unit["cfg"], unit["backend"], unit["mode"], hist, resume_at, flip_at)
+        res["stats"]["flag_flip_runs"] = res["stats"].get("flag_flip_runs", 0) + int(flip_at is not None)
         res["stats"]["resumed_runs"] = res["stats"].get("resumed_runs", 0) + int(resume_at is not None)
         res["evals"] += 1
         res["transitions"] += len(digests)
@@ -264,7 +273,7 @@ def run_unit(unit):
         if graphs > 0:
             res["nontrivial_count"] += 1
         if msgs:
-            res["violations"].append({"case": {"cfg": unit["cfg"], "backend": unit["backend"], "mode": unit["mode"], "hist": hist, "resume_at": resume_at}, "msg": f"{msgs[0]}{' (both optimizers resumed from a checkpoint before step %d)' % resume_at if resume_at is not None else ''} [cfg {brief(unit['cfg'])}]", "kind": msgs[0].split(":")[-1][:30]})
+            res["violations"].append({"case": {"cfg": unit["cfg"], "backend": unit["backend"], "mode": unit["mode"], "hist": hist, "resume_at": resume_at, "flip_at": flip_at}, "msg": f"{msgs[0]}{' (both optimizers resumed from a checkpoint before step %d)' % resume_at if resume_at is not None else ''}{' (use_nesterov and use_decoupled_weight_decay flipped in param_groups before step %d)' % flip_at if flip_at is not None else ''} [cfg {brief(unit['cfg'])}]", "kind": msgs[0].split(":")[-1][:30]})
     res["samples"].append({"cfg": brief(unit["cfg"]), "backend": unit["backend"], "dynamic": unit["mode"], "history": H1})
     res["states"] = list(res["states"])
     res["outcomes"] = list(res["outcomes"])
@@ -276,4 +285,4 @@ def brief(cfg):
 
 
 def replay(case):
-    return check(case["cfg"], case["backend"], case["mode"], case["hist"], case.get("resume_at"))[0]
+    return check(case["cfg"], case["backend"], case["mode"], case["hist"], case.get("resume_at"), case.get("flip_at"))[0]
